@@ -18,10 +18,18 @@ import (
 )
 
 const (
-	repoRoot   = "/repo"
 	verifRoot  = "/verif"
 	modulePath = "massnet.org/mass-wallet"
 )
+
+// repoRoot is /repo. VERIF_REPO overrides it for development only (evaluating a seeded change in a
+// scratch worktree without touching /repo); the registered MANIFEST commands never set it.
+var repoRoot = func() string {
+	if v := os.Getenv("VERIF_REPO"); v != "" {
+		return v
+	}
+	return "/repo"
+}()
 
 type Harness struct {
 	Name     string            `json:"name"`     // short id, e.g. c15_parse_short
